@@ -107,7 +107,7 @@ for cfg, b in builds.items():
             if fl:
                 req.append(('components_not_nan', ' && '.join('%s == %s' % (x, x) for x in fl)))
         P.contract(n, '%s shim %s under %s vs default configuration' % (modname, n, ' '.join(CONFIGS.get(cfg, ['-' + cfg]))),
-                   requires=req, ensures=ens, build=b, rel=('cfg_default', [n]), unwind=sc.unwind if (sc is not None and sc.unwind < 60) else 12,
+                   requires=req, ensures=ens, build=b, rel=('cfg_default', [n]), unwind=max(sc.unwind, 12) if (sc is not None and sc.unwind < 60) else 12,
                    uf_float=('fmul', 'fdiv', 'sqrt'), timeout=120, tier='quick' if cfg in QUICK_CFG or cfg == 'O0' else 'thorough',
                    backends=('sat', 'z3') if re.search(r'mul|Extended|u32$', n) and 'f32' not in n else ('sat',))
 
